@@ -143,7 +143,8 @@ def sort_data_models(  # noqa: PLR0912
                 pass
 
         # sort on base_class dependency
-        while True:
+        # a fix-point is reached within len(unresolved_references) passes unless base classes are circular
+        for _ in range(len(unresolved_references) + 1):
             ordered_models: list[tuple[int, DataModel]] = []
             unresolved_reference_model_names = [m.path for m in unresolved_references]
             for model in unresolved_references:
@@ -166,6 +167,12 @@ def sort_data_models(  # noqa: PLR0912
             if sorted_unresolved_models == unresolved_references:
                 break
             unresolved_references = sorted_unresolved_models
+        else:
+            unresolved_classes = ", ".join(
+                f"[class: {item.path} references: {item.reference_classes}]" for item in unresolved_references
+            )
+            msg = f"A Parser can not resolve classes: {unresolved_classes}."
+            raise Exception(msg)  # noqa: TRY002
 
         # circular reference
         unsorted_data_model_names = set(unresolved_reference_model_names)
